@@ -4,6 +4,8 @@ from callgraph import CallGraph
 import statics
 import importlib
 
+import utable
+
 EXPLANATION = ("Decides the two mechanisms that make variable names irrelevant to the search: (1) C10's renaming rules (a "
                "name is meaningful only inside one fresh per-clause map; re-run here), and (2) names are not identities in "
                "the solver: in every function reachable from the solver entry points, a value read from the `name` field "
@@ -157,9 +159,7 @@ def run(ctx):
         for i, tm in b.calls():
             c = tm["callee"]
             nm = (c.get("resolved") or c.get("path") or "")
-            if not (nm.endswith("::index") or nm.endswith("::index_mut")):
-                continue
-            if SS_VEC not in (c.get("path_args") or "").replace(" ", "") and "SubstitutionSet" not in (c.get("path_args") or ""):
+            if not utable.is_ss_lookup(tm):
                 continue
             if len(tm["args"]) < 2:
                 continue
